@@ -803,6 +803,35 @@ def oracle_offaxis(run, shift_sigma=10.0):
     return float(d.abs().max()) == 0.0, corr >= 0.5, res
 
 
+def oracle_mirror(run, pairs=4000, grid=12, seed=3):
+    """a bunch that is exactly mirror symmetric in x (every particle has a partner at -x, -px) must receive mirror-antisymmetric kicks:
+    dpx(x) + dpx(-x) = 0 up to discretisation.  Returns (reproduces_F51, fails_otherwise, details).  F51: the grid nodes run from
+    -grid_dimensions to +grid_dimensions - cell_size, so partners in the top/bottom cell of the grid are treated differently."""
+    import cheetah
+    g = torch.Generator().manual_seed(seed)
+    r = torch.randn((pairs, 6), generator=g, dtype=D)
+    half = r * torch.tensor([2e-4, 1e-6, 3e-4, 1e-6, 1e-4, 1e-5], dtype=D)
+    P = torch.zeros((2 * pairs, 7), dtype=D)
+    P[:, 6] = 1
+    P[:pairs, :6], P[pairs:, :6] = half, half
+    P[pairs:, 0] *= -1
+    P[pairs:, 1] *= -1
+    beam = cheetah.ParticleBeam(particles=P, energy=torch.tensor(4e7, dtype=D), particle_charges=torch.full((2 * pairs,), 1e-9 / (2 * pairs), dtype=D))
+    el = cheetah.SpaceChargeKick(effect_length=torch.tensor(0.1, dtype=D), num_grid_points_x=grid, num_grid_points_y=grid, num_grid_points_tau=grid, dtype=D)
+    d = el.track(beam).particles - beam.particles
+    sx = float(beam.sigma_x)
+    gd, cell = 3 * sx, 6 * sx / grid
+    a = (d[:pairs, 1] + d[pairs:, 1]).abs() / float(d[:, 1].abs().max())
+    x = P[:pairs, 0].abs()
+    inside = (P[:pairs, 2].abs() < 2 * float(beam.sigma_y)) & (P[:pairs, 4].abs() < 2 * float(beam.sigma_tau))
+    edge, core = inside & (x > gd - cell) & (x < gd), inside & (x < 2 * sx)
+    res = dict(pairs=pairs, grid=grid, seed=seed, pairs_in_outermost_cell=int(edge.sum()),
+               max_antisymmetry_defect_outermost_cell=float(a[edge].max()) if bool(edge.any()) else 0.0,
+               max_antisymmetry_defect_core=float(a[core].max()), unit="max |dpx(x) + dpx(-x)| / max |dpx|")
+    f51 = res["max_antisymmetry_defect_outermost_cell"] > 0.1 and res["max_antisymmetry_defect_core"] <= 0.05
+    return f51, res["max_antisymmetry_defect_core"] > 0.05, res
+
+
 def oracle_sphere(run, seed=7, n=200000):
     """uniformly charged sphere in its rest frame vs the analytic field: dpx = e Q x / (4 pi eps0 R^3 gamma) dt, tested only."""
     import cheetah
@@ -953,6 +982,24 @@ def main(tier, replay=None):
         if not pushed_apart:
             new_bad.append(dict(kind="offaxis", clause="offaxis_bunch_not_pushed_apart", detail=res))
 
+    # ---- known finding F51: the grid nodes are not mirror symmetric about the axis (cell_size = 2 gd / n instead of 2 gd / (n - 1))
+    listed51 = [f for f in common.load_known_findings(PID) if f.get("status") == "known" and f["id"] == "F51"]
+    rp = (listed51[0].get("replay") or {}) if listed51 else {}
+    try:
+        f51, core_bad, res = oracle_mirror(run, pairs=rp.get("pairs", 4000), grid=rp.get("grid", 12), seed=rp.get("seed", 3))
+    except Exception as ex:  # noqa
+        f51, core_bad, res = False, True, {"raises": repr(ex)[:300]}
+    run.cov["mirror_symmetric_bunch"] = res
+    if core_bad:
+        new_bad.append(dict(kind="mirror", clause="mirror_symmetric_bunch_antisymmetric_kick_core", detail=res))
+    elif f51:
+        if listed51:
+            run.known(listed51[0]["what"])
+        else:
+            new_bad.append(dict(kind="mirror", clause="mirror_symmetric_bunch_antisymmetric_kick_outermost_cell", detail=res))
+    elif listed51:
+        run.cov["known_findings_not_reproduced"].append("F51")
+
     run.cov["tested_only"] = ["irfftn(rfftn(a) * rfftn(b)) == cyclic convolution (the convolution theorem for torch's FFT): modelled, not verified; tied to "
                               "the code by _solve_poisson_equation vs the model's cyclic convolution on small grids (1e-9 of k0 max|G| sum|rho|)",
                               "the integrated-Green-function VALUES (first octant) are data in the model; compared with an independent numpy evaluation "
@@ -1012,6 +1059,10 @@ def do_replay(run, path):
     elif kind == "offaxis":
         zero_kick, pushed_apart, res = oracle_offaxis(run, r["detail"].get("shift_in_sigma", 10.0))
         items = [] if pushed_apart else [("offaxis", res)]
+    elif kind == "mirror":
+        dd = r.get("detail", {})
+        f51, core_bad, res = oracle_mirror(run, pairs=dd.get("pairs", 4000), grid=dd.get("grid", 12), seed=dd.get("seed", 3))
+        items = [("mirror", res)] if (f51 or core_bad) else []
     elif kind == "outward":
         _, items = oracle_outward(run, seed=r["seed"], n=r["n"])
     elif kind == "sphere":
